@@ -1003,6 +1003,13 @@ func (w *World) routeOne(wr *Write) {
 		w.Logf("arrive %s<-c%d", p.Addr, conn.Idx)
 		d, _ := benc.DecodeDict(b)
 		for _, rep := range p.Handle(p, conn, d, b) {
+			if p.Lag > 0 {
+				if lat, ok := w.latency("rep"); ok {
+					w.FaultHit("slow-node-reply")
+					w.SendAfter(conn, p.Addr, rep, lat+p.Lag)
+				}
+				continue
+			}
 			w.Send(conn, p.Addr, rep, "rep")
 		}
 	})
@@ -1048,6 +1055,7 @@ func (w *World) SendAfter(c *SimConn, from *net.UDPAddr, b []byte, lat time.Dura
 type Peer struct {
 	Addr   *net.UDPAddr
 	ID     [20]byte
+	Lag    time.Duration // a slow node: added to the latency of everything it sends
 	Kind   string
 	Handle func(p *Peer, from *SimConn, q benc.Dict, raw []byte) [][]byte
 	Data   any
